@@ -33,6 +33,21 @@ func NewEnc() *Enc {
 	e.raw("str_concat", "(declare-fun str_concat (Str Str) Str)")
 	e.raw("typeof", "(declare-fun typeof (Int) Int)")
 	e.strLit("")
+	// abstract finite sequences of references (Go slices viewed as mathematical lists): no SMT sequence theory
+	e.raw("RSeq", "(declare-sort RSeq 0)")
+	e.raw("seq_nil", "(declare-fun seq_nil () RSeq)")
+	e.raw("seq_single", "(declare-fun seq_single (Int) RSeq)")
+	e.raw("seq_concat", "(declare-fun seq_concat (RSeq RSeq) RSeq)")
+	e.raw("slice_seq", "(declare-fun slice_seq ((Array Int Int) Int Int) RSeq)")
+	e.axioms = append(e.axioms,
+		"(forall ((x RSeq)) (! (= (seq_concat seq_nil x) x) :pattern ((seq_concat seq_nil x))))",
+		"(forall ((x RSeq)) (! (= (seq_concat x seq_nil) x) :pattern ((seq_concat x seq_nil))))",
+		"(forall ((x RSeq) (y RSeq)) (! (= (= (seq_concat x y) seq_nil) (and (= x seq_nil) (= y seq_nil))) :pattern ((seq_concat x y))))",
+		"(forall ((v Int)) (! (not (= (seq_single v) seq_nil)) :pattern ((seq_single v))))",
+		"(forall ((x RSeq) (y RSeq) (z RSeq)) (! (= (seq_concat (seq_concat x y) z) (seq_concat x (seq_concat y z))) :pattern ((seq_concat (seq_concat x y) z))))",
+		"(forall ((r (Array Int Int)) (o Int) (n Int)) (! (= (= (slice_seq r o n) seq_nil) (<= n 0)) :pattern ((slice_seq r o n))))",
+		"(forall ((r (Array Int Int)) (o Int)) (! (= (slice_seq r o 1) (seq_single (select r (ix o 0)))) :pattern ((slice_seq r o 1))))",
+	)
 	// ix(off, i) = off + i: element addresses keep this syntactic shape so that quantifier patterns match them
 	e.raw("ix", "(declare-fun ix (Int Int) Int)")
 	e.axioms = append(e.axioms, "(forall ((o!x Int) (i!x Int)) (! (= (ix o!x i!x) (+ o!x i!x)) :pattern ((ix o!x i!x))))")
@@ -71,7 +86,7 @@ func q(s string) string {
 var smtReserved = map[string]bool{"store": true, "select": true, "and": true, "or": true, "not": true, "ite": true, "let": true, "forall": true, "exists": true,
 	"true": true, "false": true, "distinct": true, "div": true, "mod": true, "abs": true, "assert": true, "as": true, "par": true, "Int": true, "Bool": true, "Real": true,
 	"Array": true, "xor": true, "to_real": true, "to_int": true, "is_int": true, "match": true, "push": true, "pop": true, "exit": true, "Str": true, "Slice": true, "typeof": true,
-	"str_len": true, "str_concat": true, "ix": true, "mk_slice": true, "sl_base": true, "sl_off": true, "sl_len": true, "sl_cap": true, "const": true, "lambda": true, "set": true, "map": true, "seq": true, "re": true, "bag": true, "tuple": true, "table": true, "member": true, "subset": true, "union": true, "inter": true, "insert": true, "singleton": true, "complement": true, "card": true, "choose": true, "filter": true, "fold": true, "iand": true, "int2bv": true, "bv2nat": true, "pow2": true, "exp": true, "sin": true, "cos": true, "tan": true, "pi": true, "sqrt": true, "divisible": true, "eqrange": true, "is": true, "update": true, "witness": true, "Float16": true, "Float32": true, "Float64": true, "RoundingMode": true, "String": true, "RegLan": true, "fp": true, "rel": true, "join": true, "product": true, "transpose": true, "tclosure": true, "iden": true}
+	"str_len": true, "str_concat": true, "ix": true, "RSeq": true, "seq_nil": true, "seq_single": true, "seq_concat": true, "slice_seq": true, "mk_slice": true, "sl_base": true, "sl_off": true, "sl_len": true, "sl_cap": true, "const": true, "lambda": true, "set": true, "map": true, "seq": true, "re": true, "bag": true, "tuple": true, "table": true, "member": true, "subset": true, "union": true, "inter": true, "insert": true, "singleton": true, "complement": true, "card": true, "choose": true, "filter": true, "fold": true, "iand": true, "int2bv": true, "bv2nat": true, "pow2": true, "exp": true, "sin": true, "cos": true, "tan": true, "pi": true, "sqrt": true, "divisible": true, "eqrange": true, "is": true, "update": true, "witness": true, "Float16": true, "Float32": true, "Float64": true, "RoundingMode": true, "String": true, "RegLan": true, "fp": true, "rel": true, "join": true, "product": true, "transpose": true, "tclosure": true, "iden": true}
 
 func (e *Enc) declConst(name, sort string) string {
 	if smtReserved[name] {
